@@ -58,6 +58,8 @@ def param_slots(script):
                     scan(e, kind, "array-element")
         elif isinstance(it, A.ArrayParamDecl):
             d = info.setdefault(it.pname, {"kind": "any", "array": None, "slots": set()})
+            if d["array"] is not None and d["array"] != (it.vtype, int(it.shape[0]), int(it.shape[1])):
+                d["slots"].add("whole-array-twice")      # one parameter, two different array shapes: no single value fits
             d["array"] = (it.vtype, int(it.shape[0]), int(it.shape[1]))
             d["slots"].add("whole-array")
         elif isinstance(it, (A.Stmt, A.For)):
